@@ -279,11 +279,12 @@ def is_g3_slot(fn, idx):
     return fn in ("nsqed", "sqed", "vqed") and (idx[0], idx[1]) in ((1, 1), (0, 2))
 
 
-SENS_FACTOR = 64.0
+SENS_FACTOR = 8.0
+SENS_ULPS = 32.0  # perturbations must move intermediates like 1+(N-1)/2 by several ulps, or cancellations stay invisible
 
 
 def rounding_sensitivity(r, exact_g3):
-    """max |f(N') - f(N)| over three N' within 4 ulp of N, per entry (python build)."""
+    """max |f(N') - f(N)| over four N' within SENS_ULPS ulp of N, per entry (python build)."""
     line = r["line"].split()
     fn = r["fn"]
     pos = {"harm": 1, "harmshared": 1, "ns": 3, "polns": 3, "s": 2, "pols": 2, "nsqed": 4, "sqed": 3, "vqed": 3, "omes": 2, "omens": 2}[fn]
@@ -294,8 +295,8 @@ def rounding_sensitivity(r, exact_g3):
         with ctx:
             base = r["pyN"](N)
             out = np.zeros(base.shape)
-            for _ in range(3):
-                Np = complex(N.real * (1 + 4 * ULP * rng.uniform(-1, 1)), N.imag * (1 + 4 * ULP * rng.uniform(-1, 1)))
+            for _ in range(4):
+                Np = complex(N.real * (1 + SENS_ULPS * ULP * rng.choice([-1, 1]) * rng.uniform(0.5, 1)), N.imag * (1 + SENS_ULPS * ULP * rng.choice([-1, 1]) * rng.uniform(0.5, 1)))
                 out = np.maximum(out, np.abs(r["pyN"](Np) - base))
         return out
     except Exception:
@@ -400,7 +401,7 @@ def run(ck):
             else:
                 d_use, p_use = d[idx], py[idx]
             # rounding-level conditioning of this very evaluation (zeros of the non-singlet sector at N=1,
-            # poles): response of the Python value to <= 4 ulp perturbations of N
+            # poles): response of the Python value to 32-ulp perturbations of N
             if sens is None:
                 sens = rounding_sensitivity(r, pyx is not None)
             if sens is not None and d_use <= TOL * sc[idx] + SENS_FACTOR * sens[idx]:
